@@ -2667,6 +2667,37 @@ def model_value(m, v):
     return repr(v)
 
 
+def cvc5_dialect(text):
+    import re
+    return re.sub(r'\(_ ([A-Za-z0-9_!.]+) 0\)', r'\1', text)
+
+
+def cross_check(vc, timeout_ms=5000):
+    """second opinion on a proved VC: cvc5 on the same SMT-LIB text -> 'agree' (unsat) | 'disagree' (sat) | 'open'"""
+    import subprocess
+    import tempfile
+    s = z3.Solver()
+    for p in vc.pc:
+        s.add(p)
+    s.add(Not(vc.goal))
+    fd, path = tempfile.mkstemp(suffix='.smt2', prefix='pyvc-x-')
+    try:
+        with os.fdopen(fd, 'w') as f:
+            f.write(cvc5_dialect('(set-logic ALL)\n' + s.to_smt2()))
+        try:
+            p = subprocess.run(['/usr/bin/cvc5', '--strings-exp', '--tlimit=%d' % timeout_ms, path], capture_output=True,
+                               text=True, timeout=timeout_ms / 1000 + 10)
+        except (OSError, subprocess.TimeoutExpired):
+            return 'open'
+        out = (p.stdout or '').strip().split('\n')[0] if p.stdout else ''
+        return {'unsat': 'agree', 'sat': 'disagree'}.get(out, 'open')
+    finally:
+        try:
+            os.unlink(path)
+        except OSError:
+            pass
+
+
 def _z3py(vc, timeout_ms, seed=None):
     s = z3.Solver()
     s.set('timeout', timeout_ms)
@@ -2726,8 +2757,12 @@ def _discharge(vc, long_ms, t0):
     try:
         with os.fdopen(fd, 'w') as f:
             f.write(text)
+        # cvc5 1.0 does not read z3's `(_ f 0)` spelling of recursive-function applications
+        fd2, path2 = tempfile.mkstemp(suffix='.smt2', prefix='pyvc-c-')
+        with os.fdopen(fd2, 'w') as f2:
+            f2.write(cvc5_dialect(text))
         for name, cmd in (('z3-4.8', ['/usr/bin/z3', '-T:%d' % max(5, long_ms // 1000), path]),
-                          ('cvc5', ['/usr/bin/cvc5', '--strings-exp', '--tlimit=%d' % long_ms, path])):
+                          ('cvc5', ['/usr/bin/cvc5', '--strings-exp', '--tlimit=%d' % long_ms, path2])):
             try:
                 p = subprocess.run(cmd, capture_output=True, text=True, timeout=long_ms / 1000 + 10)
             except (OSError, subprocess.TimeoutExpired):
@@ -2736,10 +2771,12 @@ def _discharge(vc, long_ms, t0):
             if out == 'unsat':
                 return 'proved', time.time() - t0, None, name
     finally:
-        try:
-            os.unlink(path)
-        except OSError:
-            pass
+        for pth in (path, locals().get('path2')):
+            try:
+                if pth:
+                    os.unlink(pth)
+            except OSError:
+                pass
     s, r = _z3py(vc, long_ms, seed=7)
     if r == z3.unsat:
         return 'proved', time.time() - t0, None, 'z3(long)'
